@@ -173,6 +173,10 @@ class Translator:
                                       comparators=e.operand.comparators)
                 return self.expr(flipped, env)
             pre, c = self.cond(e.operand, env)
+            if c.startswith("(w.serializers ") and c.endswith(").isSome"):
+                return pre, c[:-len("isSome")] + "isNone", "bool"       # not (k in table) = k not in table
+            if c.startswith("(w.serializers ") and c.endswith(").isNone"):
+                return pre, c[:-len("isNone")] + "isSome", "bool"
             return pre, "(!%s)" % c, "bool"
         if isinstance(e, ast.BinOp) and isinstance(e.op, ast.BitAnd):
             # msg.flags & protocol.FLAGS_CORR_ID  (either order)
@@ -293,6 +297,11 @@ class Translator:
                 if not e.args and not kw:
                     return [], "Corr.fresh", "corr"
                 _no(e)
+            if t is bool:
+                if len(e.args) == 1 and not kw:
+                    p, c = self.cond(e.args[0], env)
+                    return p, c, "bool"
+                _no(e, "bool() arguments")
             if t is str:
                 if len(e.args) == 1 and not kw:
                     p, v, k = self.expr(e.args[0], env)
@@ -431,6 +440,11 @@ class Translator:
                 if tgt.id in self.g or tgt.id in ("self", "conn"):
                     _no(st, "assignment to a global / parameter")
                 pre, v, kind = self.expr(st.value, env)
+                if kind == "bool" and not pre:
+                    self.fresh(tgt.id)
+                    env2 = dict(env)
+                    env2[tgt.id] = (v, "bool")
+                    return nxt(env2)
 
                 def body():
                     n = self.fresh(tgt.id)
@@ -458,6 +472,8 @@ class Translator:
                         env2["$cc"] = (n, "ctx")
                         return "(let %s : Ctx := { %s with %s };\n %s)" % (n, env["$cc"][0], upd, nxt(env2))
                     return self.bind_prelude(pre, env, ctx, body)
+            if isinstance(tgt, ast.Tuple) and all(isinstance(x, ast.Name) for x in tgt.elts) and isinstance(st.value, ast.Call):
+                return self.inline_tuple_helper(st, tgt, env, ctx, nxt)
             _no(st, "assignment target")
         if isinstance(st, ast.Expr) and isinstance(st.value, ast.Call):
             c = st.value
@@ -490,6 +506,68 @@ class Translator:
         if isinstance(st, ast.Try):
             return self.stmt_try(st, rest, env, ctx, k)
         _no(st, "statement")
+
+    def inline_tuple_helper(self, st, tgt, env, ctx, nxt):
+        """`a, b = self.helper(args)`: helper = a static / instance method of the class with a straight-line body (no return but the
+        last statement, `return e1, e2`), inlined: its statements run in the caller's exception context with their own locals"""
+        c = st.value
+        f = c.func
+        if not (isinstance(f, ast.Attribute) and isinstance(f.value, ast.Name) and f.value.id == "self" and f.attr in self.methods
+                and f.attr not in ("validateHandshake", "annotations", "__annotations", "_%s__annotations" % self.cls_name, self.fn.name)):
+            _no(st, "tuple assignment from something that is not a helper of the class")
+        fn = self.methods[f.attr]
+        decos = [d.id if isinstance(d, ast.Name) else None for d in fn.decorator_list]
+        if decos not in ([], ["staticmethod"]):
+            _no(st, "decorated helper")
+        a = fn.args
+        params = [x.arg for x in a.args]
+        if not decos:
+            if not params or params[0] != "self":
+                _no(st, "helper signature")
+            params = params[1:]
+        body = [s_ for s_ in fn.body if not (isinstance(s_, ast.Expr) and isinstance(s_.value, ast.Constant)) and not self.is_log(s_)]
+        if a.vararg or a.kwarg or a.kwonlyargs or a.defaults or c.keywords or len(c.args) != len(params) or not body \
+                or not isinstance(body[-1], ast.Return) or not isinstance(body[-1].value, ast.Tuple) \
+                or len(body[-1].value.elts) != len(tgt.elts):
+            _no(st, "helper is not straight-line code ending in the return of a tuple of that length")
+        for s_ in body[:-1]:
+            for n_ in ast.walk(s_):
+                if isinstance(n_, (ast.Return, ast.Try, ast.FunctionDef, ast.Lambda, ast.While, ast.For, ast.With, ast.Global, ast.Nonlocal)):
+                    _no(st, "helper with %s" % type(n_).__name__)
+        self.depth = getattr(self, "depth", 0) + 1
+        if self.depth > 4:
+            _no(st, "helpers nested too deep")
+        try:
+            pre, henv = [], {k_: v for k_, v in env.items() if k_.startswith("$")}
+            for name, arg in zip(params, c.args):
+                if isinstance(arg, ast.Name) and arg.id == "conn":
+                    continue
+                p, v, kind = self.expr(arg, env)
+                pre += p
+                henv[name] = (v, kind)
+
+            def finish(henv2):
+                vals, pre2 = [], []
+                for el in body[-1].value.elts:
+                    p, v, kind = self.expr(el, henv2)
+                    pre2 += p
+                    vals.append((v, kind))
+
+                def bind():
+                    env2 = dict(env)
+                    env2["$cc"], env2["$sent"] = henv2["$cc"], henv2["$sent"]
+                    lets = ""
+                    for name, (v, kind) in zip(tgt.elts, vals):
+                        if name.id in self.g or name.id in ("self", "conn"):
+                            _no(st, "assignment to a global / parameter")
+                        n = self.fresh(name.id)
+                        env2[name.id] = (n, kind)
+                        lets += "let %s := %s;\n " % (n, v)
+                    return "(%s%s)" % (lets, nxt(env2))
+                return self.bind_prelude(pre2, henv2, ctx, bind)
+            return self.bind_prelude(pre, env, ctx, lambda: self.block(body[:-1], henv, ctx, finish))
+        finally:
+            self.depth -= 1
 
     def pure_assign(self, stmts, env):
         """((kind of target, name), lean value, kind) if stmts is one assignment whose value raises nothing"""
